@@ -71,6 +71,7 @@ fn main() {
         "geometry" => geometry::replay(rest),
         "record-geometry" => geometry::record(rest),
         "record-game" => game::main(rest),
+        "cli-labels" => game::cli_labels(rest),
         "record-transient" => transient::main(rest),
         other => {
             eprintln!("unknown subcommand {}", other);
